@@ -1,11 +1,31 @@
 from runner import Prop, Stream
 from qe_common import QE_TRUSTED, QE_ASSUMPTIONS, valid_qe, shrink_request
 
+def _has_nul(x):
+    if isinstance(x, str):
+        return "\x00" in x
+    if isinstance(x, list):
+        return any(_has_nul(y) for y in x)
+    return False
+
+
+def classify(inp):
+    """D30: a Stats request with group-by Columns over data in which a string contains a NUL byte"""
+    try:
+        lines = inp["lines"]
+        grouped = any(l.lower().startswith("columns:") for l in lines) and any(l.lower().startswith("stats:") for l in lines)
+        if grouped and any(_has_nul(t["rows"]) for b in inp["ds"]["backends"] for t in b["tables"]):
+            return "groupby_value_contains_nul"
+    except (KeyError, TypeError, AttributeError):
+        pass
+    return None
+
+
 PROP = Prop(
     pid="C05",
     coq_props="theories/C05/Props.v",
     coq_run=["theories/QE/Run.v"],
-    streams=[Stream("c05", "qe", n_quick=400, n_thorough=4000, shards_thorough=8, valid=valid_qe, shrinker=shrink_request,
+    streams=[Stream("c05", "qe", n_quick=400, n_thorough=4000, shards_thorough=8, valid=valid_qe, shrinker=shrink_request, classify=classify,
                     extra_args=["--profile", "c05"],
                     what="generated requests through NewRequest/NewResponse/Buffer on a daemon loaded by the importer (profile c05)")],
     trusted_base=QE_TRUSTED,
